@@ -186,6 +186,8 @@ def elem_apply(ufunc, *args):
     fn = SYM_UFUNC.get(ufunc)
     if fn is None:
         raise Unsupported("ufunc %s on symbolic values" % ufunc.__name__)
+    # NumPy scalars would hand the operation back to __array_ufunc__ (endless recursion): plain Python numbers
+    args = [a.item() if isinstance(a, np.generic) else a for a in args]
     r = fn(*args)
     if r is NotImplemented:
         raise Unsupported("ufunc %s on %r" % (ufunc.__name__, args))
@@ -541,6 +543,16 @@ def l_unique(xs):
     return out
 
 
+def _np_result(r):
+    """A concrete scalar result of a NumPy function is a NumPy scalar, not a Python number: 400 / np.max(x)
+    with a zero maximum is inf with a warning, where 400 / 0.0 in Python raises ZeroDivisionError."""
+    if type(r) is float:
+        return np.float64(r)
+    if type(r) is int:
+        return np.int64(r)
+    return r
+
+
 def _any_masked(x):
     if isinstance(x, SymArray):
         return x._mask is not None
@@ -590,7 +602,7 @@ class SymArray(np.ndarray):
     def __array_function__(self, func, types, args, kwargs):
         h = HANDLERS.get(func)
         if h is not None:
-            return h(*args, **kwargs)
+            return _np_result(h(*args, **kwargs))
         if func in PASS_THROUGH:
             return super().__array_function__(func, types, args, kwargs)
         if not has_sym(args) and not has_sym(list(kwargs.values())) and not _any_masked(args):
